@@ -122,10 +122,13 @@ type workerExit struct {
 }
 
 func workerTimeout() time.Duration {
+	if s, err := strconv.Atoi(os.Getenv("VERIF_C08_WORKER_TIMEOUT_S")); err == nil && s > 0 {
+		return time.Duration(s) * time.Second // test knob for the hang path
+	}
 	if flags.Thorough() {
 		return 40 * time.Minute
 	}
-	return 6 * time.Minute
+	return 4 * time.Minute
 }
 
 // runWorker starts bin as a worker and waits for it (SIGQUIT after the timeout: the goroutine dump lands in
@@ -344,7 +347,7 @@ func recordDeath(w workerExit, bin string, race bool, work, name string) {
 	}
 	if w.timedOut {
 		// a slow machine is not a hang: only a trial that does not finish on its own either is reported
-		again := runWorker(bin, childSpec{Trial: &t, Reps: 1}, race, work, 3*time.Minute)
+		again := runWorker(bin, childSpec{Trial: &t, Reps: 1}, race, work, 2*time.Minute)
 		if !again.timedOut {
 			res.Disagree(lib.Disagreement{Stream: name, Input: w.mark, Model: fmt.Sprintf("the worker finishes within %v", workerTimeout()),
 				Impl: "killed after the timeout; the trial in flight finishes when it runs alone\n" + obs})
